@@ -35,11 +35,14 @@ RECURSIVE Named(_)
 Named(ns) == IF ns = <<>> THEN {}
              ELSE (IF Head(ns).t \in {"leaf", "cond"} THEN {Head(ns).v} ELSE {}) \cup Named(Head(ns).ch) \cup Named(Tail(ns))
 
-\* the assignments the caller's restrictions leave: inside IUSE, forced flags respected
-Candidates(iuse, ft, ff) == {on \in SUBSET iuse : ft \subseteq on /\ on \cap ff = {}}
+(* The assignments the caller's restrictions leave.  A flag outside IUSE is off - also when the
+   caller forces it on (profile use.force names flags such as kernel_linux that a package does not
+   have): "Any USE flag encountered not in this set, will be forced to a False value" is the
+   documented contract of the iuse parameter, so forced-on binds the forced flags INSIDE IUSE.   *)
+Candidates(iuse, ft, ff) == {on \in SUBSET iuse : (ft \cap iuse) \subseteq on /\ on \cap ff = {}}
 Sols(ns, iuse, ft, ff)  == {on \in Candidates(iuse, ft, ff) : Status(ns, on) = "sat"}
 \* preferred flags on, every other unforced flag off
-Preferred(iuse, ft, ff, pt) == ft \cup ((pt \cap iuse) \ ff)
-\* domain of the property: forced sets are disjoint and forced-on flags are in IUSE
-InDomain(iuse, ft, ff) == ft \cap ff = {} /\ ft \subseteq iuse
+Preferred(iuse, ft, ff, pt) == (ft \cap iuse) \cup ((pt \cap iuse) \ ff)
+\* domain of the property: no flag is forced both ways (the forced sets may reach outside IUSE)
+InDomain(iuse, ft, ff) == ft \cap ff = {}
 =========================================================================
